@@ -2,7 +2,12 @@
 
 # property -> contract modules that carry obligations for it
 PROPERTY_MODULES = {
-    "C16": ["selection", "choicemap"],
+    "C16": ["selection", "choicemap", "core_gfi"],
+    "C01": ["core_gfi", "choicemap"],
+    "C02": ["core_gfi"],
+    "C03": ["core_gfi", "choicemap"],
+    "C04": ["core_gfi", "selection"],
+    "C05": ["core_gfi"],
 }
 
 A_REAL = "A-REAL: machine floats are treated as mathematical reals and ints as mathematical ints (no rounding, overflow, nan/inf)"
